@@ -654,9 +654,26 @@ func WriteStrings(out *strings.Builder, list []Object, before, sep, after string
 		if i > 0 {
 			out.WriteString(sep)
 		}
-		out.WriteString(p.Inspect())
+		inspectTo(out, p)
 	}
 	out.WriteString(after)
+}
+
+// inspectTo writes o.Inspect() to out; arrays and maps write their elements straight to out instead of each
+// level making its own string that the next one copies (quadratic in the nesting: minutes for [[[...]]] 300k deep).
+func inspectTo(out *strings.Builder, o Object) {
+	switch o := o.(type) {
+	case SmallArray:
+		WriteStrings(out, o.smallArr[:o.len], "[", ",", "]")
+	case BigArray:
+		WriteStrings(out, o.elements, "[", ",", "]")
+	case SmallMap:
+		o.inspectTo(out)
+	case *BigMap:
+		o.inspectTo(out)
+	default:
+		out.WriteString(o.Inspect())
+	}
 }
 
 func (f Function) Unwrap(forceStringKeys bool) any {
@@ -1083,32 +1100,40 @@ func (m SmallMap) Inspect() string {
 		return "{}"
 	}
 	out := strings.Builder{}
+	m.inspectTo(&out)
+	return out.String()
+}
+
+func (m SmallMap) inspectTo(out *strings.Builder) {
 	out.WriteString("{")
 	for i := range m.len {
 		if i > 0 {
 			out.WriteString(",")
 		}
-		out.WriteString(m.smallKV[i].Key.Inspect())
+		inspectTo(out, m.smallKV[i].Key)
 		out.WriteString(":")
-		out.WriteString(m.smallKV[i].Value.Inspect())
+		inspectTo(out, m.smallKV[i].Value)
 	}
 	out.WriteString("}")
-	return out.String()
 }
 
 func (m *BigMap) Inspect() string {
 	out := strings.Builder{}
+	m.inspectTo(&out)
+	return out.String()
+}
+
+func (m *BigMap) inspectTo(out *strings.Builder) {
 	out.WriteString("{")
 	for i, kv := range m.kv {
 		if i != 0 {
 			out.WriteString(",")
 		}
-		out.WriteString(kv.Key.Inspect())
+		inspectTo(out, kv.Key)
 		out.WriteString(":")
-		out.WriteString(kv.Value.Inspect())
+		inspectTo(out, kv.Value)
 	}
 	out.WriteString("}")
-	return out.String()
 }
 
 func (m SmallMap) JSON(w io.Writer) error {
